@@ -93,6 +93,10 @@ type ReqBody struct {
 	Closed int
 	Reads  int
 	FailAt int
+	// EOFWithLast: the last bytes are returned together with io.EOF (io.Reader allows both forms)
+	EOFWithLast bool
+	// OneByte: at most one byte per Read
+	OneByte bool
 }
 
 //go:norace
@@ -108,8 +112,16 @@ func (r *ReqBody) Read(p []byte) (int, error) {
 	if r.i >= len(r.Chunks) {
 		return 0, io.EOF
 	}
-	n := copy(p, r.Chunks[r.i][r.off:])
+	src := r.Chunks[r.i][r.off:]
+	if r.OneByte && len(src) > 1 {
+		src = src[:1]
+	}
+	n := copy(p, src)
 	r.off += n
+	if r.EOFWithLast && r.i == len(r.Chunks)-1 && r.off >= len(r.Chunks[r.i]) {
+		r.i++
+		return n, io.EOF
+	}
 	return n, nil
 }
 
@@ -125,6 +137,9 @@ type ReqSpec struct {
 	Body     []byte
 	Stream   [][]byte // streamed body chunks (nil: buffered)
 	Declared int      // content length for a streamed body (-1 unknown)
+	// reader behaviour of a streamed body
+	EOFWithLast bool
+	OneByte     bool
 }
 
 // Client is a real http2.Client under the controlled scheduler with scripted servers.
@@ -184,7 +199,7 @@ func (h *Client) Go(spec ReqSpec) *CCall {
 		req.Header.Add(kv[0], kv[1])
 	}
 	if spec.Stream != nil {
-		call.BodyReader = &ReqBody{Chunks: spec.Stream}
+		call.BodyReader = &ReqBody{Chunks: spec.Stream, EOFWithLast: spec.EOFWithLast, OneByte: spec.OneByte}
 		req.SetBodyStream(call.BodyReader, spec.Declared)
 	} else if spec.Body != nil {
 		req.SetBody(spec.Body)
@@ -286,6 +301,13 @@ func (h *Client) ServerStall(i int) {
 	h.collect()
 	h.Conns[i].Stalled = true
 	h.Conns[i].C.SetOutStalled(true)
+}
+
+// ServerResume: scripted server i reads again (one event).
+func (h *Client) ServerResume(i int) {
+	h.Conns[i].Stalled = false
+	h.Conns[i].C.SetOutStalled(false)
+	h.step(fmt.Sprintf("server#%d reads again", i))
 }
 
 // ServerClose: the server closes connection i.
